@@ -261,8 +261,13 @@ func genCase(t *rapid.T, o genOpts) *Case {
 	// at most one directory sets an option other than checks: the reference run
 	// is memoised per (variant, non-checks content of the tree)
 	otherDir := rapid.SampledFrom([]string{"-", "-", "-", "-", "-", "-", "", "a", "a/b", "c"}).Draw(t, "otherdir")
+	// deep: configuration files on every level of the path to the sibling directories a/b and a/d
+	deep := rapid.IntRange(0, 3).Draw(t, "deep") == 0
 	for _, d := range pkgDirs {
 		kind := rapid.SampledFrom([]string{"absent", "absent", "absent", "absent", "checks", "checks", "checks", "checks", "checks", "checks", "empty", "malformed"}).Draw(t, "conf "+d)
+		if deep && (d == "" || d == "a" || d == "a/b" || d == "a/d") && !strings.HasPrefix(kind, "checks") {
+			kind = "checks"
+		}
 		if kind == "malformed" && !malformedConf {
 			kind = "absent"
 		}
